@@ -90,7 +90,11 @@ func checkC18(w *rcWorld, out *Outcome, root context.Context, reason string) {
 		// let the read deadline run out
 		e.Knobs.MaxIdle = 2 * timeout
 		e.Drain(3 * timeout)
-		outstanding := cn.ReqWritten > cn.respProduced()
+		for i := 0; i < 4 && cn.ReqWritten > cn.respProduced() && !cn.IsClosed() && e.Now() < cn.LastWriteAt+timeout; i++ {
+			// a request was written less than one timeout ago: let its deadline pass
+			e.Drain(cn.LastWriteAt + timeout - e.Now() + time.Millisecond)
+		}
+		outstanding := cn.Srv.Silent && cn.ReqWritten > cn.respProduced()
 		out.Nontrivial = outstanding
 		if outstanding {
 			out.Extra["silent_with_outstanding"]++
